@@ -122,7 +122,8 @@ def render_rtf(doc, *, images=None, opts=None) -> bytes:
     body = []
     for ui, u in enumerate(doc["units"]):
         if ui:
-            body.append("\\page\n")
+            # the page break may sit inside nested formatting groups (Word writes it wherever the run properties happen to be open)
+            body.append({"nested": "{\\b {\\i \\page }}\n", "deep": "{{{{\\page}}}}\n", "par-in-group": "{\\f1 \\page\\pard }\n"}.get(opts.get("page_break"), "\\page\n"))
         body.append(_blocks(u["blocks"], st))
     return (head + "\\paperw11906\\paperh16838\\sectd\n" + hf + "".join(body) + "}").encode("ascii")
 
